@@ -620,6 +620,8 @@ def install(I):
                 dv = I.mk_int(0, v.ty)
             elif isinstance(v, z3.BoolRef):
                 dv = z3.BoolVal(False)
+            elif isinstance(v, Agg) and v.ty in ('HashMap', 'HashSet', 'Vec', 'VecDeque', 'BTreeMap'):
+                dv = Agg(v.ty, ())
             else:
                 raise Unmodelled('mem::take of %r' % (v,))
         I.write(st, r.cell, r.path, dv)
